@@ -23,7 +23,7 @@ fn ops_for(k: u64) -> Vec<Op> {
     }
 }
 fn dbg(ops: &[Op]) -> Vec<String> { ops.iter().map(|o| format!("{:?}", o)).collect() }
-fn rect(a: f32) -> Rectangle { Rectangle { left: 0.0, bottom: a, right: 200.0 + a, top: 300.5 } }
+fn rect(a: f32) -> Rectangle { Rectangle { left: 4.0, bottom: a, right: 200.0 + a, top: 300.5 } }
 
 pub fn run(cases_path: &str, report_path: &str, _opts: &[String]) {
     let cases = read_cases(cases_path);
